@@ -1,6 +1,8 @@
 import Dnp3.Gen.Link
 import Dnp3.Gen.CrcTable
 import Dnp3.Model.LinkReader
+import Dnp3.Proofs.LinkParser
+import Dnp3.Proofs.LinkReader
 /-!
 # C06 — Only intact link frames are delivered, and every frame sent is recovered
 
@@ -23,5 +25,74 @@ theorem crc_table_is_dnp : ∀ i : Fin 256, Gen.crcTable.getD i.val 0 = bitStep8
 
 /-- `CRC_OF_0564` is the CRC register after the two start octets -/
 theorem crc_of_0564 : Gen.crcOf0564 = crcIncS 0 [0x05, 0x64] := by decide +kernel
+
+/-- **soundness**: whatever the parser delivers from a frame-start state is exactly the image of a
+    well-formed frame (start octets, length, header CRC, every block CRC), and the delivered
+    control octet, addresses and payload are the ones in those octets -/
+theorem parser_sound (bs rest : List Nat) (st' : PState) (h : LHeader) (p : List Nat)
+    (hb : ∀ b ∈ bs, b < 256) (hr : parseImpl .sync1 bs = (st', rest, .ok (some (h, p)))) :
+    bs = encodeFrame h p ++ rest ∧ p.length ≤ 250 ∧ st' = .sync1 ∧
+      h.ctrl < 256 ∧ h.dst < 65536 ∧ h.src < 65536 :=
+  Dnp3.parser_sound bs rest st' h p hb hr
+
+/-- soundness through `Parser::parse` in Close mode -/
+theorem parser_sound_close (bs rest : List Nat) (st' : PState) (h : LHeader) (p : List Nat)
+    (hb : ∀ b ∈ bs, b < 256) (hr : parse .close .sync1 bs = (st', rest, .ok (some (h, p)))) :
+    bs = encodeFrame h p ++ rest ∧ p.length ≤ 250 ∧ st' = .sync1 ∧
+      h.ctrl < 256 ∧ h.dst < 65536 ∧ h.src < 65536 :=
+  Dnp3.parse_close_sound bs rest st' h p hb hr
+
+/-- **round trip, one call**: every frame the library formats is parsed back identically,
+    leaving exactly the octets that follow it -/
+theorem parse_encode (h : LHeader) (p rest : List Nat) (hc : h.ctrl < 256) (hd : h.dst < 65536)
+    (hs : h.src < 65536) (hp : p.length ≤ 250) :
+    parseImpl .sync1 (encodeFrame h p ++ rest) = (.sync1, rest, .ok (some (h, p))) :=
+  Dnp3.parse_encode h p rest hc hd hs hp
+
+/-- **chunking-independent round trip** (both error modes, every legal buffer size): any stream
+    of formatted frames, split into reads in any way whatsoever (one octet at a time, reads
+    straddling the buffer shift, empty reads), is delivered as exactly those frames, in order,
+    with no error -/
+theorem stream_roundtrip (m : ErrMode) (frag : Nat) (frames : List (LHeader × List Nat))
+    (hv : ∀ f ∈ frames, ValidFrame f) (chunks : List (List Nat))
+    (hcat : chunks.flatten = frames.flatMap (fun f => encodeFrame f.1 f.2)) :
+    ((Reader.new m .stream frag).feedAll chunks).2 = frames.map (fun f => LEvent.frame f.1 f.2) := by
+  obtain ⟨r', h, _⟩ := Dnp3.stream_roundtrip m frag frames hv chunks hcat
+  rw [h]
+
+/-- a frame or error already produced is not changed by octets that arrive later, and a parse
+    that needs more octets resumes exactly where it stopped -/
+theorem parse_incremental (st st' : PState) (bs rest more : List Nat)
+    (h : parseImpl st bs = (st', rest, .ok none)) :
+    parseImpl st (bs ++ more) = parseImpl st' (rest ++ more) :=
+  Dnp3.parseImpl_more st st' bs rest more h
+
+/-- the reader never issues a zero-length read (which the physical layer wrapper turns into
+    `UnexpectedEof`): after a parse that needs more data at most 281 octets are pending -/
+theorem reader_never_zero_read (r : Reader) (avail rest : List Nat) (st' : PState)
+    (hcap : 293 ≤ r.cap) (hbe : r.begin_ ≤ r.end_) (hec : r.end_ ≤ r.cap)
+    (hpl : r.pending.length = r.end_ - r.begin_) (hb : ∀ b ∈ r.pending, b < 256)
+    (hst : boundedState r.pst) (hrl : rest.length ≤ r.pending.length)
+    (hparse : parse r.emode r.pst r.pending = (st', rest, .ok none)) (ha : avail ≠ []) :
+    rest.length ≤ 281 ∧
+    ({ r with pst := st', pending := rest,
+              begin_ := r.begin_ + (r.pending.length - rest.length) } : Reader).readMore avail ≠ none :=
+  Dnp3.reader_never_zero_read r avail rest st' hcap hbe hec hpl hb hst hrl hparse ha
+
+/-- every legal fragment size gives a read buffer that can hold a whole frame plus one octet -/
+theorem read_buffer_holds_a_frame (frag : Nat) : 293 ≤ readBufferSize frag :=
+  Dnp3.readBufferSize_ge frag
+
+/-- known finding D10 (witness, decided by evaluation of the model): in discard mode `05 64`
+    delivered in an earlier read than a valid frame makes the frame disappear, while the same
+    octets in one read are recovered -/
+theorem discard_resync_counterexample :
+    let frame := encodeFrame ⟨0xC4, 1024, 1⟩ [0xC0, 0xC0, 0x01, 0x02]
+    ((Reader.new .discard .stream 2048).feedAll [[0x05, 0x64], frame]).2 = [] ∧
+    ((Reader.new .discard .stream 2048).feedAll [[0x05, 0x64] ++ frame]).2 =
+      [.frame ⟨0xC4, 1024, 1⟩ [0xC0, 0xC0, 0x01, 0x02]] := by
+  decide +kernel
+
+example : ValidFrame (⟨0xC4, 1024, 1⟩, [0xC0, 0xC0, 0x01, 0x02]) := by decide
 
 end Dnp3.Props.C06
